@@ -209,6 +209,35 @@ def run(ctx):
                 what = "action" if "UriAction" in txt or "action" in txt else "text"
                 ctx.violation("C11.display", f"C11.display:{ty}:raw-{what}", w.where(fdx, c["line"]),
                               f"{ty}::fmt writes {what} text into the URI without encoding it (a custom action containing '&', '#', '%' or '=' re-parses differently)")
+    # ---- split before decode -------------------------------------------------------------------------------------------------
+    ctx.rule("C11.decode-order", "the URI parsers split on their delimiters ('/', '?', '#', '&', '=') only in text that has not been percent-decoded yet, "
+                                 "and decode each part afterwards: Display writes an identifier's own '/', '?', '#' as %XX (C11.encode_set), so decoding "
+                                 "first would turn them into separators")
+    dexo = D.Dex(w.lookup, adt_discr=w.adt_discr, effects=lambda n: True)
+    SPLITTERS = ("split_once", "rsplit_once", "split", "rsplit", "splitn", "rsplitn", "split_terminator", "matches", "find", "rfind", "strip_prefix", "strip_suffix")
+    n_split = 0
+    for name in ["MatrixId::parse_with_sigil", "MatrixId::parse_with_type", "MatrixToUri::parse", "MatrixUri::parse"]:
+        fn = w.fn("ruma_common::identifiers::matrix_uri::" + name)
+        seen = {}
+        decodes = 0
+        for pth in dexo.paths(fn, [D.sym("s")]):
+            for e in pth.effects:
+                meth = e[0].rsplit("::", 1)[-1]
+                if meth in ("percent_decode_str", "percent_decode"):
+                    decodes += 1
+                if meth in SPLITTERS and "<impl str>" in e[0] and len(e[1]) >= 2:
+                    a = U.shows(e[1])
+                    if a[1] in ("'/'", "'?'", "'#'", "'&'", "'='"):
+                        seen[(meth, a[1], "decode" in a[0])] = a[0]
+        for (meth, delim, decoded), arg in sorted(seen.items()):
+            n_split += 1
+            ctx.check(not decoded, "C11.decode-order", f"C11.decode-order:{name}:{meth}:{delim}:{'decoded' if decoded else 'raw'}", w.where(fn),
+                      ok_msg="delimiter searched in raw (still encoded) text",
+                      bad_msg=f"{meth}({delim}) is applied to percent-decoded text ({arg[:90]}): an identifier containing {delim} (written as %XX by Display) "
+                              f"is cut at its own character, so to_string -> parse no longer round-trips")
+        if name == "MatrixId::parse_with_sigil":
+            ctx.check(decodes > 0, "C11.decode-order", "C11.decode-order:parse_with_sigil:decodes", w.where(fn), bad_msg="identifier parts are never percent-decoded")
+    ctx.floor("delimiter searches in URI parsers", n_split, 6)
     from . import controls
     controls.sites(ctx, "C11.sites")
     ctx.assumptions += ["percent-encoding / form_urlencoded / url crates behave as documented", "round-trip equality for all values is not decided"]
